@@ -101,11 +101,11 @@ theorem unconvertible_amount_stays_pending :
     EXCEPT when its conversion is not computable — the `.dropped` case witnessed by
     `unconvertible_amount_stays_pending`, which is why this theorem is `_partial`. -/
 theorem pending_only_while_waiting_partial {P : Params} {c : DB} {b : Block} {avgs : TMap} {s' : DB}
-    (hrun : blockTx P c b avgs c = .ok () s') (htx : b.height ≥ P.act.txConv) :
+    (hpos : 0 < b.height) (hrun : blockTx P c b avgs c = .ok () s') (htx : b.height ≥ P.act.txConv) :
     (∃ s1 s2 st, gradeAndRates P c b s1 = .ok st s2 ∧ st ≠ .cont true) ∨
     ∃ rates, ∀ row ∈ c.holding, (c.mostRecentRatesBefore b.height).2 ≤ row.height → row.height < b.height →
       Considered P b.height rates avgs c s' row.entry :=
-  block_considers_held hrun htx
+  block_considers_held hpos hrun htx
 
 end Pegnet.C17
 
